@@ -174,5 +174,5 @@ MANIFEST = {
             "within the supported depth the repair returns no error, all messages valid, changed iff something was invalid, and beyond the depth it reports an error. The model is compared with "
             "strings.ToValidUTF8 / utf8.ValidString / repairInvalidUTF8InFailure on exhaustive short strings and structured random ones. The codec-level clauses are decided by running the real "
             "RepairUTF8Codec against the standard codec on the sanitised bytes for every conversion-table root and failure path.",
-    "note": "Wire codecs are trusted. Post-1.22 fields are dropped by the legacy round trip on the repair path (observation outside the property's domain).",
+    "note": "Both repair sites are exercised: the gRPC codec and the history-blob path of the translation interceptor (every subset of a 1-3 event batch damaged). Wire codecs are trusted. Post-1.22 fields are dropped by the legacy round trip on the repair path (observation outside the property's domain).",
 }
